@@ -139,21 +139,28 @@ def reaction_smiles_to_graph(smiles: str) -> tuple[nx.Graph, nx.Graph]:
     if len(rxn_tokens) != 2:
         raise ValueError("Expected reaction SMILES but found '{}'.".format(smiles))
     r_smiles, p_smiles = rxn_tokens
-    g = smiles_to_graph(r_smiles)
-    h = smiles_to_graph(p_smiles)
+    # Hydrogen atoms written in a reaction SMILES (e.g. the ones inserted by
+    # prune_its_to_rc) are atoms of the reaction and must be kept as nodes.
+    g = mol_smiles_to_graph(r_smiles, remove_hydrogens=False)
+    h = mol_smiles_to_graph(p_smiles, remove_hydrogens=False)
     assert isinstance(g, nx.Graph)
     assert isinstance(h, nx.Graph)
     return g, h
 
 
-def mol_smiles_to_graph(smiles: str) -> nx.Graph:
+def mol_smiles_to_graph(smiles: str, remove_hydrogens: bool = True) -> nx.Graph:
     """Converts a SMILES to a graph.
 
     :param smiles: SMILES to convert to graph(s).
+    :param remove_hydrogens: (optional) If set to False, hydrogen atoms that
+        are written as atoms in the SMILES (e.g. ``[H]`` or ``[H:5]``) are
+        kept as nodes. (Default: True)
 
     :returns: A node and edge labeled molecular graph.
     """
-    mol = rdmolfiles.MolFromSmiles(smiles)
+    params = rdmolfiles.SmilesParserParams()
+    params.removeHs = remove_hydrogens
+    mol = rdmolfiles.MolFromSmiles(smiles, params)
     if mol is None:
         raise ValueError("RDKit was unable to parse SMILES '{}'.".format(smiles))
     return mol_to_graph(mol)
